@@ -187,6 +187,18 @@ REGISTRY["C12"] = dict(
     explanation="Clauses C12-a..e of DESIGN.md §3 on MIR facts of the current tree. NOT decided: configuration semantics, CSS emission order across modules.",
     assumptions=TRUSTED + ["spec/builtin_aliases.json transcribed from the Sass documentation"],
 )
+REGISTRY["C16"] = dict(
+    module="c16",
+    level="other",
+    technique="static analysis: predicate-sensitive guard dominance for unit conversion in calculation.rs; decision-table extraction of parenthesize_calculation_rhs compared with real arithmetic; guard/arm extraction of the sign flip; dominance of verify_compatible_numbers",
+    claim=(
+        "Crash and printing-table clauses: (a) every unit conversion in value/calculation.rs is guarded on the same pair on every path; (b) the full truth table of parenthesize_calculation_rhs equals "
+        "`a o (b . c)` needing parentheses under real arithmetic, and the serializer uses it (right) and precedence() (left); (c) a negative right operand is negated and flips +/-; "
+        "(d) unsimplified min/max/clamp and +/- operations are built only after verify_compatible_numbers. NOT decided: numeric equivalence of source and output expressions."
+    ),
+    explanation="Clauses of DESIGN.md §3 C16 on MIR facts of the current tree. NOT decided: that simplification preserves the computed value for all inputs.",
+    assumptions=TRUSTED,
+)
 
 UNBUILT = "check not built yet in this session (design in DESIGN.md §3); not claimed until its rules run clean on the pinned tree"
 NOT_APPLICABLE = {
